@@ -368,11 +368,19 @@ def _child(scn: Scenario, out_paths: dict, conns: dict, use_real_pool: bool):
     except OSError:
         pass
     sys.stdout = open(os.devnull, "w")
-    sys.stderr = open(os.devnull, "w")
+    sys.stderr = open(os.environ.get("VERIF_AGG_STDERR", os.devnull), "a")      # (debugging aid)
     from . import drive
     if not use_real_pool:
         drive.use_serial_pool()
+    import importlib
     import panoptica.panoptica_aggregator as pa
+    # a session is a fresh interpreter as far as the aggregator module is concerned: its module-level
+    # state (lock objects wherever they are kept, registries) is created anew - a killed session must
+    # not leave this one with locks that are held forever
+    try:
+        importlib.reload(pa)
+    except Exception:  # noqa: BLE001
+        pass
     w = Wrappers(out_paths.values())
     w.split_writes = scn.split_writes
     w.install()
@@ -478,7 +486,11 @@ class SessionRun:
         self.killed = False
         self.main_error = None
         self.stuck_events = 0
-        self.settle()
+        try:
+            self.settle()
+        except Hang:
+            self.kill()
+            raise
 
     # -- message pump ------------------------------------------------------------------
     def settle(self, stuck_wait=None):
@@ -493,7 +505,10 @@ class SessionRun:
             stuck = [a for a, s in self.state.items() if s == "stuck"]
             if not running and not (stuck and stuck_wait):
                 if stuck:
-                    self._pump(conn_wait([self.pconn[a] for a in stuck], timeout=0))
+                    ready = conn_wait([self.pconn[a] for a in stuck], timeout=0)
+                    if ready:
+                        self._pump(ready)
+                        continue                 # (a message may have set somebody running again)
                 return
             elsewhere = bool(self._grantable())
             tmo = stuck_wait if not running else ((SOFT_AGAIN_S if self.stuck_events else SOFT_S) if elsewhere else HANG_S)
@@ -509,7 +524,8 @@ class SessionRun:
                 return                                   # waited for the stuck ones in vain
             self._pump(ready)
             if stuck_wait and not running:
-                return
+                stuck_wait = None                # one of them spoke: settle normally from here
+                continue
             if time.time() - t0 > 4 * HANG_S:
                 raise Hang("session does not settle")
 
@@ -741,7 +757,12 @@ class History:
         self.sessions += 1
         if self.sessions > 1:
             self.events.append({"p": MAIN, "op": "crash" if self.last_killed else "restart", "session_marker": True})
-        run = SessionRun(self.scn, self.out_paths, self.header, self.rows, self.use_real_pool)
+        try:
+            run = SessionRun(self.scn, self.out_paths, self.header, self.rows, self.use_real_pool)
+        except Hang as h:
+            # the constructor phase never reached its first yield point
+            self.hang = "session start: " + str(h)
+            return None
         step = 0
         midwrite: dict = {}
         last_read: dict = {}
@@ -753,7 +774,8 @@ class History:
                 en = run.enabled()
                 if not en:
                     blocked = {a: run.pending[a][0] for a in run.pending}
-                    self.deadlock = {"blocked": blocked, "lock_owner": dict(run.lock_owner), "step": len(self.events)}
+                    self.deadlock = {"blocked": blocked, "lock_owner": dict(run.lock_owner), "step": len(self.events),
+                                     "state": {str(k): v for k, v in run.state.items()}}
                     run.kill()
                     break
                 a = policy(run, en)
